@@ -775,6 +775,32 @@ func Corpus(tier string, embedded []*Schema) []*Schema {
 		add(&Schema{Name: "featrev", Files: []*descriptorpb.FileDescriptorProto{gr}, Param: "features=fast+protoc"})
 	}
 
+	// ---- deprecated fields, messages, enums, enum values and oneof members (comments emitted around their Go API)
+	{
+		pkg := "vc.deprecated"
+		f := file("vc/deprecated.proto", pkg, goPkg("deprecated", ""))
+		e := enum("OldEnum", "OLD_ZERO", 0, "OLD_ONE", 1)
+		e.Options = &descriptorpb.EnumOptions{Deprecated: proto.Bool(true)}
+		e.Value[1].Options = &descriptorpb.EnumValueOptions{Deprecated: proto.Bool(true)}
+		f.EnumType = append(f.EnumType, e)
+		m := newMsg(pkg, "HasOld")
+		dep := func(fd *descriptorpb.FieldDescriptorProto) { fd.Options = &descriptorpb.FieldOptions{Deprecated: proto.Bool(true)} }
+		dep(m.field("old_name", 1, tString, ""))
+		m.field("name", 2, tString, "")
+		dep(m.repeated("old_ids", 3, tInt64, ""))
+		dep(m.mapField("old_map", 4, tString, tInt32, ""))
+		dep(m.field("old_enum", 5, tEnum, "."+pkg+".OldEnum"))
+		o := m.oneof("pick")
+		dep(m.member(o, "old_choice", 6, tBytes, ""))
+		m.member(o, "choice", 7, tBool, "")
+		old := newMsg(pkg, "OldMsg")
+		old.msg.Options = &descriptorpb.MessageOptions{Deprecated: proto.Bool(true)}
+		old.field("v", 1, tInt32, "")
+		dep(m.field("old_msg", 8, tMessage, old.path))
+		f.MessageType = append(f.MessageType, m.msg, old.msg)
+		add(&Schema{Name: "deprecated", Files: []*descriptorpb.FileDescriptorProto{f}})
+	}
+
 	// ---- requests that must not produce code
 	{
 		f := file("vc/p2.proto", "vc.p2", goPkg("p2", ""))
